@@ -15,7 +15,8 @@
   rewritten one; `perm_invariant_current` and `perm_invariant_tiefix` state determinism for the newer forms.
 
   NOT proved here: that the C code equals the model (correspondence check), anything about dlopen
-  itself, int overflow in _cmp_f, the MAXPATHLEN guard of the ancestor walk.
+  itself, the MAXPATHLEN guard of the ancestor walk.  Int overflow in _cmp_f: `priorities_in_range_sort_as_modelled`
+  (no effect below 2^30) and `prio_overflow_witness` (finding F17-PRIO-OVERFLOW beyond).
 
   THE LOADER'S I/O, exactly.  The model takes the world as parameters of `Env`/`Dir`/`File`; the
   correspondence check runs the real binary under harness/preload_shim.c, which makes the world BE
@@ -39,15 +40,43 @@
       the kernel's path resolution      : `dir/..` chains reach "/" (st_ino / st_dev of the real
                                            directories decide where the ancestor walk stops)
       getpwuid (local user), getcwd / chdir in the error path, glibc getopt (for option dispatch)
-    NOT MODELLED: st_gid / group permissions, ACLs, symlink attributes (stat follows links: a link
-      to a secure file is as good as the file), races between stat and dlopen (TOCTOU), MAXPATHLEN,
-      opendir failing after the path test passed, int overflow of priorities.
+    NOT MODELLED: ACLs, races between stat and dlopen (TOCTOU), MAXPATHLEN, int overflow of priorities.
+      st_gid / group permission bits: mod.c does not look at them and neither does the model -- stated as
+      `decisions_ignore_other_bits`.  Symbolic links: stat follows them, so a linked module file carries
+      the attributes of its target and a PDSH_MODULE_DIR that names a link is judged by the ancestors of
+      the link's target (the check builds both situations).  opendir failing after the path test passed
+      and an empty directory are the same thing for the loader -- no entry, exit 1 -- and are run as the
+      directory without entries.  ONE OBJECT UNDER TWO NAMES (symbolic or hard link inside the directory):
+      the model's files are distinct objects; the real loader gets the same handle and the same
+      pdsh_module_info for both names and, as the code stands, clears type and name of the shared descriptor
+      when it drops one of them (finding F17-SAMEOBJ: SIGSEGV; findings/C17-sameobj.patch skips the second
+      name -- the check then feeds the model the second name as an object that registers nothing).
+
+  clause of the property text                           theorem(s)
+  ----------------------------------------------------  ------------------------------------------------------
+  active set is a function of contents and -M only      contents_determine_outcome (as a SET of entries),
+                                                           perm_invariant(_current,_tiefix), dispatch_deterministic;
+                                                           witnesses tie_witness, dup_equal_witness, dup_personality_witness
+  ... and of -M / PDSH_MISC_MODULES only                misc_list_from_command_line (composed with C18.precedence)
+  -M first, then priority-then-name order               forced_first, spec_sound (clause `order`), list_sort correct
+                                                           (Mod/SortLemmas.lean)
+  a module with a taken option is inactive as a whole   conflict_all_or_nothing, initialize_all_or_nothing,
+                                                           inactive_options_not_accepted
+  same type and name: only the higher priority          dup_higher_priority_only
+  no code from an insecure file                         insecure_file_never_opened, file_decision, opened_decision(_current),
+                                                           decisions_ignore_other_bits
+  nor below an insecure ancestor                        insecure_path_loads_nothing, path_decision, unknown_owner_loads_nothing
+  root and set-uid runs ignore PDSH_MODULE_DIR          root_ignores_env, dir_decision
+  all clauses at once, code as it is now                spec_sound
+  "for all priorities"                                   priorities_in_range_sort_as_modelled, prio_overflow_witness
 -/
 import PdshVerif.Mod.Determinism
 import PdshVerif.Mod.TieLemmas
 import PdshVerif.Mod.Spec
 import PdshVerif.Mod.SpecSound
 import PdshVerif.Mod.SplitLemmas
+import PdshVerif.Mod.PrioWrap
+import PdshVerif.Props.C18
 
 namespace PdshVerif.C17
 open PdshVerif.Mod
@@ -215,6 +244,21 @@ theorem file_decision (uid owner : Nat) (f : File) :
       · exact Or.inl (Or.inl h)
       · exact Or.inl (Or.inr h)
       · exact Or.inr h
+
+/-- THE TABLES LOOK AT NOTHING ELSE: the verdict on a file and on a directory depends on st_uid and, of
+    st_mode, only on the type bits, the world-write bit and the sticky bit.  Group ownership, group and
+    owner permission bits, set-uid/set-gid bits do not enter (mod.c does not read st_gid; the property text
+    does not mention the group either): a group-writable module file or ancestor is accepted like any other -/
+theorem decisions_ignore_other_bits (uid owner u m m' : Nat)
+    (ht : m &&& Gen.MO_S_IFMT = m' &&& Gen.MO_S_IFMT) (hw : m &&& S_IWOTH = m' &&& S_IWOTH)
+    (hs : m &&& S_ISVTX = m' &&& S_ISVTX) :
+    fileOk uid owner ⟨u, m⟩ = fileOk uid owner ⟨u, m'⟩ ∧ dirOk uid owner ⟨u, m⟩ = dirOk uid owner ⟨u, m'⟩ := by
+  simp only [fileOk, dirOk, isReg, isDir, ownerOk, ht, hw, hs, and_self]
+
+/-- 0664 / 0775 (group-writable) against 0644 / 0755, owner root -/
+example : fileOk 1000 500 ⟨0, 0o100664⟩ = fileOk 1000 500 ⟨0, 0o100644⟩ ∧ fileOk 1000 500 ⟨0, 0o100664⟩ = true ∧
+    dirOk 1000 500 ⟨0, 0o40775⟩ = true ∧ dirOk 1000 500 ⟨0, 0o40777⟩ = false ∧ dirOk 1000 500 ⟨0, 0o41777⟩ = true := by
+  decide
 
 /-- the complete decision: WHAT is handed to dlopen, for every environment and directory -- nothing
     when the owner of the binary is unknown or the path test fails, else exactly the directory
@@ -386,6 +430,83 @@ theorem dispatch_deterministic (e : Env) (p : List (Option FStat)) (fs₁ fs₂ 
   obtain ⟨_, hm, _, ho, _, _⟩ := perm_invariant_tiefix e p fs₁ fs₂ hp hn
   unfold optUse
   rw [hm, ho]
+
+/-- THE OUTCOME IS A FUNCTION OF THE DIRECTORY CONTENTS AS A SET (code as it is now, with findings/C17.patch):
+    two enumerations that deliver the same entries -- in any order -- give the same exit status, module
+    list with active flags, initialiser calls in the same order, option string and registrations; entries
+    are (name, stat result, object), names are distinct as directory entries are, and nothing is assumed
+    about duplicates of (type, name), ties of priority or personalities -/
+theorem contents_determine_outcome (e : Env) (p : List (Option FStat)) (fs₁ fs₂ : List File)
+    (hn₁ : (fs₁.map (·.fname)).Nodup) (hn₂ : (fs₂.map (·.fname)).Nodup)
+    (hset : ∀ f, f ∈ fs₁ ↔ f ∈ fs₂) :
+    let d₁ : Dir := ⟨p, fs₁.map (persFirstFile e.pers)⟩
+    let d₂ : Dir := ⟨p, fs₂.map (persFirstFile e.pers)⟩
+    (Tie.loadDir e d₁).fatal = (Tie.loadDir e d₂).fatal ∧ (Tie.loadDir e d₁).mods = (Tie.loadDir e d₂).mods ∧
+    (Tie.loadDir e d₁).calls = (Tie.loadDir e d₂).calls ∧ (Tie.loadDir e d₁).opts = (Tie.loadDir e d₂).opts ∧
+    (Tie.loadDir e d₁).regs = (Tie.loadDir e d₂).regs ∧
+    (Tie.loadDir e d₁).opened.Perm (Tie.loadDir e d₂).opened ∧
+    ∀ c, optUse (Tie.loadDir e d₁) c = optUse (Tie.loadDir e d₂) c := by
+  intro d₁ d₂
+  have nd : ∀ {fs : List File}, (fs.map (·.fname)).Nodup → fs.Nodup := by
+    intro fs h
+    induction fs with
+    | nil => simp
+    | cons f rest ih =>
+      simp only [List.map_cons, List.nodup_cons, List.mem_map] at h ⊢
+      exact ⟨fun hm => h.1 ⟨f, hm, rfl⟩, ih h.2⟩
+  have hp : fs₁.Perm fs₂ := (List.perm_ext_iff_of_nodup (nd hn₁) (nd hn₂)).mpr hset
+  obtain ⟨h1, h2, h3, h4, h5, h6⟩ := perm_invariant_tiefix e p fs₁ fs₂ hp hn₁
+  exact ⟨h1, h2, h3, h4, h5, h6, fun c => dispatch_deterministic e p fs₁ fs₂ hp hn₁ c⟩
+
+/-- non-vacuity: a directory with a tie (misc/tie, rcmd/tie), an equal-priority duplicate and a conflict,
+    enumerated in two different orders -/
+example :
+    let fs₁ := [wMod "a.so" "misc" "tie" 100 3 'Y', wMod "b.so" "rcmd" "tie" 100 3 'Y',
+                wMod "c.so" "misc" "alpha" 100 3 'a', wMod "d.so" "misc" "alpha" 100 3 'Y']
+    let fs₂ := [fs₁[3]!, fs₁[1]!, fs₁[0]!, fs₁[2]!]
+    (fs₁.map (·.fname)).Nodup ∧ (fs₂.map (·.fname)).Nodup ∧ (∀ f, f ∈ fs₁ ↔ f ∈ fs₂) ∧
+    wView (Tie.loadAllPF (wEnv fs₁)) = wView (Tie.loadAllPF (wEnv fs₂)) := by
+  refine ⟨by decide, by decide, ?_, by decide⟩
+  intro f
+  simp only [List.mem_cons, List.mem_nil_iff, or_false, List.getElem!_eq_getElem?_getD]
+  constructor <;> (intro h; rcases h with h | h | h | h <;> subst h <;> simp)
+
+/-! ## where the -M list comes from (composed with C18) -/
+
+/-- "...a function of its contents and of -M/PDSH_MISC_MODULES only": the list of forced modules the loader
+    model takes (`Env.misc`) is, in every accepted run, what C18's model of opt.c delivers (C18.precedence, proved
+    over the option table generated from opt.c): the LAST -M of the command line as the early option pass reads
+    it, else PDSH_MISC_MODULES, else nothing -- so the outcome of module loading is the same for any two command
+    lines and environments that agree on that one value (and on the directory) -/
+theorem misc_list_from_command_line {fx : Opt.Fixes} {d : Opt.Defaults} {p : Opt.Pers} {env : Opt.Env}
+    {argv : List Opt.Str} {c : Opt.Cfg} (h : Opt.effective fx d p env argv = .ok c) (e : Env) :
+    Tie.loadAllPF { e with misc := c.miscModules } =
+      Tie.loadAllPF { e with misc := (Opt.lastArg 'M' (Opt.getopt (Opt.earlyString fx d p) argv).1 <|>
+                                      Opt.getenv env "PDSH_MISC_MODULES") } := by
+  obtain ⟨_, _, _, _, _, a6, _⟩ := C18.precedence h
+  rw [a6]
+
+/-! ## priorities on a 32-bit int -/
+
+/-- `_cmp_f` returns `y->priority - x->priority` in int arithmetic; the models subtract in ℤ.  On every module
+    list whose priorities are below 2^30 in magnitude list_sort with the machine's comparison (`cmpFWrap`: the
+    difference wrapped into 32 bits) gives exactly the list the model sorts -- so all theorems above speak about
+    the 32-bit code for such priorities (this is what "priorities far from INT_MAX" means, exactly) -/
+theorem priorities_in_range_sort_as_modelled (l : List Mod) (h : ∀ m ∈ l, PrioWrap.small m) :
+    listSort PrioWrap.cmpFWrap l = listSort Tie.cmpF l :=
+  PrioWrap.listSort_wrap_eq l h
+
+/-- F17-PRIO-OVERFLOW witness: priorities 100 and INT_MIN.  100 - INT_MIN does not fit an int, the wrapped
+    difference is negative, and the module with the LOWEST possible priority is put first (finding open;
+    findings/C17-prio.patch compares instead of subtracting) -/
+theorem prio_overflow_witness :
+    let a : Mod := ⟨"a.so".toList, miscType, "alpha".toList, 100, ⟨some miscType, some "alpha".toList, 100, 3, some [], none⟩, false⟩
+    let b : Mod := ⟨"b.so".toList, miscType, "beta".toList, -2147483648,
+                    ⟨some miscType, some "beta".toList, -2147483648, 3, some [], none⟩, false⟩
+    (listSort PrioWrap.cmpFWrap [a, b]).map (·.prio) = [-2147483648, 100] ∧
+    (listSort Tie.cmpF [a, b]).map (·.prio) = [100, -2147483648] ∧
+    (listSort PrioWrap.cmpFWrap [b, a]).map (·.prio) = [-2147483648, 100] := by
+  decide
 
 /-! ## duplicates -/
 
